@@ -14,6 +14,7 @@ from vlib.common import Sub, Violation, call, must_raise, close, G
 pyrepseq = boot.import_pyrepseq()
 
 PROPERTY = "C17"
+QUICK_SCALE = 3
 DELTA = 1e-12
 RULE = ("subsample: the same count object depleted in place between 2-4 calls must be honoured at every call; count vectors (length 1..12, entries 0..30, zeros included) x every kind of n in 0..total (+ n > total must "
         "raise), NumPy seed generated: indices sorted & unique, counts > 0, sum == n, count_i <= original_i; uniformity: for a "
@@ -132,7 +133,10 @@ def check_downsample(case, rec):
     elems, m, seed, how = case["elems"], case["maxseqs"], case["np_seed"], case["as"]
     n = len(elems)
     if how == "table":
-        obj = pd.DataFrame({"CDR3B": elems, "rowid": list(range(n))}, index=[f"r{i}" for i in range(n)][::-1])
+        labels = [f"r{i}" for i in range(n)][::-1]
+        if case.get("dup_index"):
+            labels = [f"r{i // 2}" for i in range(n)]      # e.g. a table made by pd.concat without ignore_index
+        obj = pd.DataFrame({"CDR3B": elems, "rowid": list(range(n))}, index=labels)
     else:
         obj = G.materialise(elems, how)
     trunc = m is not None and n > m
@@ -304,7 +308,7 @@ def downsample_case(draw, tier="quick"):
         m = 0
     if how == "tuple" and n == 2:
         how = "list"
-    return {"elems": elems, "maxseqs": m, "np_seed": draw(st.integers(0, 2 ** 32 - 1)), "as": how}
+    return {"elems": elems, "maxseqs": m, "np_seed": draw(st.integers(0, 2 ** 32 - 1)), "as": how, "dup_index": draw(st.booleans())}
 
 
 @st.composite
